@@ -6,3 +6,4 @@ import Ypv.Props.C06
 #print axioms Ypv.C06.value_report_follows_sync
 #print axioms Ypv.C06.diff_refl
 #print axioms Ypv.C06.keyed_of_no_key_sync
+#print axioms Ypv.C06.diff_truthful
